@@ -24,7 +24,8 @@ META = {
     'alphabet': {'grids': '1x1, 2x1, 3x1, 2x2, 3x2 (names a, b)', 'repetitions': [1, 2, 3],
                  'life (own completion time)': [0, 2, 4], 'max_timesteps': '0, life-1, life, life+3',
                  'collectors': ['None', "'c0'", "['c0','c1']", "('c0','c1')", '34 (invalid)'],
-                 'schedules': 'all outcomes (worker task sequences, completion order) of FIFO dispatch at chunksize 1'},
+                 'schedules': 'all outcomes (worker task sequences, completion order) of FIFO dispatch at chunksize 1',
+                 'injected errors': ['RuntimeError', 'StopIteration', 'KeyError', 'BoomError (custom)']},
     'bounds': {'quick': 'n <= 4 tasks, p in 2,3 (p >= n is equivalent to p = n); faults on n = 3',
                'thorough': 'n <= 5 tasks, p in 2,3,4,5; faults on n <= 4'},
     'assumptions': ['worker processes share nothing, so a worker\'s results depend only on its own task sequence '
@@ -45,18 +46,30 @@ class Rec(Collector):
     def collect(self):
         t = self.model.systems.timestep
         self.n += 1
-        if self.boom is not None and self.boom == t and self.id == 'c0':
-            raise RuntimeError(f'boom a={self.a} b={self.b} t={t}')
+        if self.boom is not None and t == 0 and self.id == 'c0':
+            raise BOOM_KINDS[self.boom](f'boom a={self.a} b={self.b} t={t}')
         self.records.append((self.id, self.a, self.b, t, self.n))
         if self.id == 'c1' and t + 1 >= self.life:
             self.model.complete()
 
 
+class BoomError(Exception):
+    pass
+
+
+BOOM_KINDS = {'RuntimeError': RuntimeError, 'StopIteration': StopIteration, 'KeyError': KeyError,
+              'BoomError': BoomError}
+
+
 class BModel(Core.Model):
     def __init__(self, a, b=0, life=2, boom=None, delay=0.0, jitter=0):
         super().__init__(seed=1)
-        # boom names the failing execution by its parameters ("a,b"); it fails in its first timestep
-        boom = 0 if boom == f'{a},{b}' else None
+        # boom names the failing execution by its parameters and the exception kind ("a,b:Kind"); it fails in its
+        # first timestep
+        if boom is not None and boom.split(':')[0] == f'{a},{b}':
+            boom = boom.split(':')[1]
+        else:
+            boom = None
         self.systems.add_system(Rec('c0', self, a, b, life, boom))
         self.systems.add_system(Rec('c1', self, a, b, life, boom))     # registered second: runs after c0
         if delay:      # conformance leg only: run durations perturbed per execution so completion order gets permuted
@@ -114,7 +127,7 @@ def run_batch(case, cache=None):
     eff_limit = limit if limit is not None else 10 ** 9
     if boom is not None:
         # the failing execution is identified by its parameters (fault batches use repetitions = 1)
-        params['boom'] = f'{tasks[boom][0]},{tasks[boom][1]}'
+        params['boom'] = f'{tasks[boom][0]},{tasks[boom][1]}:{case.get("boom_kind", "RuntimeError")}'
     oc = case.get('outcome')
     if procs != 1:
         outcome = (tuple(tuple(w) for w in oc[0]), tuple(oc[1])) if oc else None
@@ -123,7 +136,7 @@ def run_batch(case, cache=None):
         try:
             got = Batching.batch_run(BModel, params, **kwargs)
             raised = None
-        except RuntimeError as e:
+        except (RuntimeError, StopIteration, KeyError, BoomError) as e:
             got, raised = None, e
     finally:
         if procs != 1:
@@ -134,8 +147,8 @@ def run_batch(case, cache=None):
         fails = [i for i, t in enumerate(tasks) if t == tasks[boom] and life > 0 and eff_limit > 0]
         if fails:
             if raised is None:
-                raise Violation(f'an execution raising RuntimeError was dropped silently (batch {case})',
-                                expected='RuntimeError in the caller', observed=_short(got))
+                raise Violation(f'an execution raising {case.get("boom_kind", "RuntimeError")} was dropped silently '
+                                f'(batch {case})', expected='an error in the caller', observed=_short(got))
             if 'boom' not in str(raised):
                 raise Violation(f'the caller got a different error: {raised!r}')
             return ('raised', str(raised))
@@ -202,14 +215,16 @@ def fault_cases(tier):
         if reps != 1:
             continue
         for boom in range(n):
-            yield {'leg': 'fault', 'grid': gname, 'reps': reps, 'life': 2, 'limit': None, 'collectors': 'c0',
-                   'procs': 1, 'boom': boom}
-            for p in (2, 3):
-                if p > n:
-                    continue
-                for oc in sched.outcomes(n, p):
-                    yield {'leg': 'fault', 'grid': gname, 'reps': reps, 'life': 2, 'limit': None, 'collectors': 'c0',
-                           'procs': p, 'boom': boom, 'outcome': [list(map(list, oc[0])), list(oc[1])]}
+            for kind in BOOM_KINDS:
+                yield {'leg': 'fault', 'grid': gname, 'reps': reps, 'life': 2, 'limit': None, 'collectors': 'c0',
+                       'procs': 1, 'boom': boom, 'boom_kind': kind}
+                for p in (2, 3):
+                    if p > n:
+                        continue
+                    for oc in sched.outcomes(n, p):
+                        yield {'leg': 'fault', 'grid': gname, 'reps': reps, 'life': 2, 'limit': None,
+                               'collectors': 'c0', 'procs': p, 'boom': boom, 'boom_kind': kind,
+                               'outcome': [list(map(list, oc[0])), list(oc[1])]}
 
 
 def chunk_fn(ctx, chunk):
